@@ -191,8 +191,29 @@ def tokens_match(exp, obs):
     return all(e == "?" or e == o for e, o in zip(et, ot))
 
 
-def run_cases(cases, cfg, rundir, extra_defs=(), tag="", timeout=20, env_extra=None):
-    """Runs both sides on `cases`. Returns (impl_lines_by_case, model_lines_by_case, error)."""
+def run_cases(cases, cfg, rundir, extra_defs=(), tag="", timeout=20, env_extra=None, phase2=None, modelonly=False):
+    """Runs both sides on `cases`. Returns (impl_lines_by_case, model_lines_by_case, error).
+
+    With `phase2` (a function case, impl_lines -> ops for the Lean validator) the stream is two-phase:
+    the real code exports a structure, the Lean driver re-validates it with the definitions the theorems
+    are about, and every verdict must be `V ok`."""
+    if phase2 is not None:
+        impl, _, err = run_cases(cases, cfg, rundir, extra_defs, tag, timeout, env_extra)
+        if err:
+            return None, None, err
+        cases2 = []
+        for c in cases:
+            ops2 = phase2(c, impl.get(c[0], []))
+            cases2.append((c[0], c[1], c[2], c[3], [], ops2))
+        _, verdicts, err = run_cases(cases2, cfg, os.path.join(rundir, "p2"), extra_defs, tag, timeout, env_extra, modelonly=True)
+        if err:
+            return None, None, err
+        impl2, mod2 = {}, {}
+        for c in cases:
+            faults = [l for l in impl.get(c[0], []) if l.startswith("FAULT")]
+            impl2[c[0]] = verdicts.get(c[0], []) + faults
+            mod2[c[0]] = ["%d V ok" % (i + 1) for i in range(len(c[5]))]
+        return impl2, mod2, None
     exe, err = build.build_harness("drv", cfg, REPO, extra_defs, tag)
     if err:
         return None, None, err
@@ -219,7 +240,7 @@ def run_cases(cases, cfg, rundir, extra_defs=(), tag="", timeout=20, env_extra=N
     def one(p):
         logdir = p + ".logs"
         os.makedirs(logdir, exist_ok=True)
-        rc1, o1 = sh([exe, p, "--timeout", str(timeout), "--logdir", logdir], env=env, timeout=3600)
+        rc1, o1 = (0, "") if modelonly else sh([exe, p, "--timeout", str(timeout), "--logdir", logdir], env=env, timeout=3600)
         rc2, o2 = sh([model, p], timeout=3600)
         return (rc1, o1, rc2, o2)
 
@@ -304,6 +325,10 @@ def match_known(known, prop, case, diff):
             continue
         if "lopt" in m and lopt not in m["lopt"]:
             continue
+        if "op_prefix" in m and [str(x) for x in op[:len(m["op_prefix"])]] != m["op_prefix"]:
+            continue
+        if "case_prefix" in m and not cid.startswith(m["case_prefix"]):
+            continue
         if "observed_regex" in m and not re.search(m["observed_regex"], diff["observed"]):
             continue
         if "params" in m and any(str(params.get(k)) != str(v) for k, v in m["params"].items()):
@@ -315,11 +340,11 @@ def match_known(known, prop, case, diff):
 
 
 # --------------------------------------------------------------------------- shrinking
-def shrink(case, cfg, rundir, predicate_sig, extra_defs=(), tag="", budget=40):
+def shrink(case, cfg, rundir, predicate_sig, extra_defs=(), tag="", budget=40, phase2=None):
     """Delta debugging over strings, then ops.  `predicate_sig(diff)` tells whether a
     reduced case still fails the same way."""
     def fails(c):
-        impl, mod, err = run_cases([c], cfg, rundir, extra_defs, tag)
+        impl, mod, err = run_cases([c], cfg, rundir, extra_defs, tag, phase2=phase2)
         if err:
             return None
         d = compare_case(c, impl.get(c[0]), mod.get(c[0]))
@@ -436,7 +461,7 @@ def check(prop, tier, seed):
         stream_sets.insert(0, streams.StreamSet("corpus", "asan", corpus))
     for ss in stream_sets:
         ts = time.time()
-        impl, mod, err = run_cases(ss.cases, ss.cfg, os.path.join(rundir, ss.name), ss.extra_defs, ss.tag, ss.timeout, ss.env)
+        impl, mod, err = run_cases(ss.cases, ss.cfg, os.path.join(rundir, ss.name), ss.extra_defs, ss.tag, ss.timeout, ss.env, phase2=ss.phase2)
         if err:
             corr_errors.append("%s: %s" % (ss.name, err))
             log("[%s] stream %s: ERROR %s" % (prop, ss.name, err[:1500]))
@@ -478,12 +503,12 @@ def check(prop, tier, seed):
     for sig, (ss, c, d, cnt) in list(reported.items())[:6]:
         fault = d.get("fault")
         same = (lambda dd, fault=fault: (dd.get("fault") == fault) if fault else ("fault" not in dd))
-        small, sd = shrink(c, ss.cfg, os.path.join(rundir, "shrink"), same, ss.extra_defs, ss.tag)
+        small, sd = shrink(c, ss.cfg, os.path.join(rundir, "shrink"), same, ss.extra_defs, ss.tag, phase2=ss.phase2)
         sd = sd or d
         name = "%s_%s_%s" % (sig[0] or c[1], sig[1], hashlib.sha1(repr(sig).encode()).hexdigest()[:8])
         rp = write_replay(prop, name, {
             "property": prop, "kind": "correspondence", "stream": ss.name, "build_cfg": ss.cfg,
-            "extra_defs": list(ss.extra_defs), "seed": seed, "tier": tier, "occurrences": cnt,
+            "extra_defs": list(ss.extra_defs), "phase2": ss.phase2.__name__ if ss.phase2 else None, "seed": seed, "tier": tier, "occurrences": cnt,
             "case": case_to_json(small), "expected": sd["expected"], "observed": sd["observed"],
             "op": op_of(small, sd), "original_case_id": c[0],
             "how_to_replay": "python3 tools/vcheck.py %s --replay <this file>" % prop})
@@ -553,7 +578,8 @@ def replay(prop, path):
         sh(["lake", "build", "csd_model"], cwd=LEAN)
     c = case_from_json(j["case"])
     rundir = os.path.join(BUILD, "run", "replay_%d" % os.getpid())
-    impl, mod, err = run_cases([c], j.get("build_cfg", "asan"), rundir, tuple(j.get("extra_defs", [])))
+    p2 = getattr(streams, j["phase2"]) if j.get("phase2") else None
+    impl, mod, err = run_cases([c], j.get("build_cfg", "asan"), rundir, tuple(j.get("extra_defs", [])), phase2=p2)
     if err:
         log("replay error: " + err)
         return 2
